@@ -209,6 +209,17 @@ func (e *Env) Wire(dir string, extraEnv []string, args ...string) *CmdResult {
 	e.mu.Lock()
 	e.WireRuns++
 	e.mu.Unlock()
+	// a generous step budget on the hooked loops (50 times what C07 allows) turns a planner
+	// that never terminates into a prompt, deterministic exit instead of a watchdog timeout
+	capSet := false
+	for _, kv := range extraEnv {
+		if strings.HasPrefix(kv, "VERIF_STEP_CAP=") {
+			capSet = true
+		}
+	}
+	if !capSet {
+		extraEnv = append(append([]string(nil), extraEnv...), "VERIF_STEP_CAP=20000")
+	}
 	env := e.GoEnv(extraEnv...)
 	return e.Run(dir, env, 180*time.Second, e.WireBin, args...)
 }
